@@ -56,7 +56,7 @@ theorem lexBlockComment_sat {n : Int} {l0 : Lexer} : ∀ (k : Nat) (l : Lexer) (
       obtain ⟨hl1, hs1, hf1⟩ := next_facts hnx (by lx)
       unfold NextFacts at hf1
       split
-      · exact errorf_sat
+      · first | exact errorf_sat | exact errorfAt_sat
       split
       · exact ih l1.rem (by simp only [Lexer.rem] at hk ⊢; lx) l1 _ rfl (by lx) (by lx) (by lx) (by lx) (by lx)
       split
@@ -142,14 +142,14 @@ theorem isEndOfLine_nonneg {r : Int} (h : isEndOfLine r = true) : 0 ≤ r := by
   omega
 
 /-- the loop of lexSoyDoc, entered (from lexText at `l0`) after input has been consumed -/
-theorem lexSoyDocLoop_sat {n : Int} {l0 : Lexer} : ∀ (k : Nat) (l : Lexer) (star sol : Bool),
+theorem lexSoyDocLoop_sat {n : Int} {l0 : Lexer} : ∀ (k : Nat) (l : Lexer) (ds : Int) (star sol : Bool),
     2 * l.rem + (if sol = true then 1 else 0) = k →
     l.len = n → 0 ≤ l.start → l.start ≤ l.pos → l.pos ≤ n → l0.pos < l.pos →
-    Sat (lexSoyDocLoop l star sol) (Post n .text l0) := by
+    Sat (lexSoyDocLoop l ds star sol) (Post n .text l0) := by
   intro k
   induction k using Nat.strongRecOn with
   | _ k ih =>
-    intro l star sol hk hn h0 h1 h2 hadv
+    intro l ds star sol hk hn h0 h1 h2 hadv
     unfold lexSoyDocLoop
     split
     · rename_i heq
@@ -159,7 +159,7 @@ theorem lexSoyDocLoop_sat {n : Int} {l0 : Lexer} : ∀ (k : Nat) (l : Lexer) (st
       obtain ⟨hl1, hs1, hf1⟩ := next_facts hnx (by lx)
       unfold NextFacts at hf1
       split
-      · exact errorf_sat
+      · first | exact errorf_sat | exact errorfAt_sat
       rename_i hE
       simp only [eof] at hE
       have hrem1 : l1.rem < l.rem := by simp only [Lexer.rem]; lx
@@ -174,10 +174,10 @@ theorem lexSoyDocLoop_sat {n : Int} {l0 : Lexer} : ∀ (k : Nat) (l : Lexer) (st
       split
       · rename_i hS
         split
-        · exact ih _ (by rw [← hk]; simp only [hS, if_true]; omega) l1 _ _ rfl
+        · exact ih _ (by rw [← hk]; simp only [hS, if_true]; omega) l1 _ _ _ rfl
             (by lx) (by lx) (by lx) (by lx) (by lx)
         split
-        · exact ih _ (by rw [← hk]; simp only [hS, if_true]; omega) l1 _ _ rfl
+        · exact ih _ (by rw [← hk]; simp only [hS, if_true]; omega) l1 _ _ _ rfl
             (by lx) (by lx) (by lx) (by lx) (by lx)
         · rename_i hSp hSt
           have hpre := hasPrefixAt_sat (s := l1.input) (pos := l1.pos - 1) (pre := atParam)
@@ -206,7 +206,7 @@ theorem lexSoyDocLoop_sat {n : Int} {l0 : Lexer} : ∀ (k : Nat) (l : Lexer) (st
               split
               · rename_i hEol
                 exact absurd (isEndOfLine_isSpaceEOL hEol) hSp
-              · exact ih _ (by rw [← hk]; simp only [hS, if_true, Bool.false_eq_true, if_false]; omega) l2 _ _ rfl
+              · exact ih _ (by rw [← hk]; simp only [hS, if_true, Bool.false_eq_true, if_false]; omega) l2 _ _ _ rfl
                   (by lx) (by lx) (by lx) (by lx) (by lx)
       · rename_i hS
         have hS' : sol = false := by simpa using hS
@@ -220,9 +220,9 @@ theorem lexSoyDocLoop_sat {n : Int} {l0 : Lexer} : ∀ (k : Nat) (l : Lexer) (st
           · rename_i l2 hM
             obtain ⟨hl2, hp2, hw2, hs2⟩ := hm.of_eq hM
             have hrem2 : l2.rem < l.rem := by simp only [Lexer.rem]; lx
-            exact ih _ (by rw [← hk]; simp only [hS', Bool.false_eq_true, if_false, if_true]; omega) l2 _ _ rfl
+            exact ih _ (by rw [← hk]; simp only [hS', Bool.false_eq_true, if_false, if_true]; omega) l2 _ _ _ rfl
               (by lx) (by lx) (by lx) (by lx) (by lx)
-        · exact ih _ (by rw [← hk]; simp only [hS', Bool.false_eq_true, if_false]; omega) l1 _ _ rfl
+        · exact ih _ (by rw [← hk]; simp only [hS', Bool.false_eq_true, if_false]; omega) l1 _ _ _ rfl
             (by lx) (by lx) (by lx) (by lx) (by lx)
 
 theorem lexSoyDoc_sat {n : Int} {l0 l : Lexer} (hn : l.len = n) (h0 : 0 ≤ l.start)
@@ -231,7 +231,7 @@ theorem lexSoyDoc_sat {n : Int} {l0 l : Lexer} (hn : l.len = n) (h0 : 0 ≤ l.st
   unfold lexSoyDoc
   obtain ⟨l1, e1, hl1, hp1, hs1, hw1⟩ := emit_ex .tSoyDocStart (l := l) (by lx) (by lx) (by lx)
   simp only [e1]
-  exact lexSoyDocLoop_sat _ l1 _ _ rfl (by lx) (by lx) (by lx) (by lx) (by lx)
+  exact lexSoyDocLoop_sat _ l1 _ _ _ rfl (by lx) (by lx) (by lx) (by lx) (by lx)
 
 
 /-! ### lexText -/
@@ -303,7 +303,7 @@ theorem lexTextLoop_sat {n : Int} {l0 : Lexer} : ∀ (k : Nat) (l : Lexer) (last
         apply Sat.ofSome
         apply Post.of (by lx) (by lx) (by lx) (by lx) (by lx) (by intro _ _; decide) (by intro _ _; decide)
       split
-      · exact errorf_sat
+      · first | exact errorf_sat | exact errorfAt_sat
       split
       · -- eof
         obtain ⟨l2, e2, hl2, hp2, hw2, hs2⟩ := maybeEmitText_ex (l := l1.backup) (k := 0) (by lx) (by omega) (by lx)
